@@ -268,6 +268,3 @@ pub fn follow_ex(start: usize, want: usize, read: &dyn Fn(usize, usize) -> Optio
     Walk { end: End::Loop, path, written, words }
 }
 
-pub fn live_reader() -> impl Fn(usize, usize) -> Option<Vec<u8>> {
-    |a, n| crate::maps::read_vec(a, n)
-}
